@@ -99,6 +99,16 @@ CHECKS = {
          "class, checks OnePerClass / InitOnce / SameUntilCleared / ClearIsTargeted, and every (state, call) is replayed with its path "
          "on fresh real classes and followed by TLC with hidden state.",
          "TLC model checking + trace validation with hidden state"),
+ "C12": ("model_checking", "6 C12",
+         "Every container handed out by an accessor or query and every container passed to a constructor / builder is mutated in nine "
+         "ways on real objects in graph states over the pool, caching off and on; snapshots (structure + vars of every object) and the "
+         "complete table of later query answers before / after are compared by TLC (the specification: such a client step is a stutter).",
+         "TLA+ stutter specification + trace validation (snapshot equality judged by TLC)"),
+ "C13": ("model_checking", "6 C13",
+         "TLC checks the PyVis tag/emit/untag mechanism with a fault point at every callback invocation (and that the unrepaired "
+         "mechanism fails); every read-only entry point is run on real objects with each callback raising at its k-th invocation for "
+         "every k, snapshots around the call and the answer of a repeated call judged by TLC; caching off and on.",
+         "TLC model checking (fault points) + trace validation (fault enumeration over callback invocations)"),
 }
 
 NOT_YET = {}
